@@ -93,6 +93,7 @@ def cases(rng, tier):
         out.append({"t": "qs", "pairs": ps, "kb": rng.random() < 0.5})
     for _ in range(300 * reps):
         out.append({"t": "unq", "txt": common.rnd_text(rng, 14, "ab+%2F41zZ&= é")})
+    out += dpop_cases(rng)
     return out
 
 
@@ -152,7 +153,54 @@ def _impl_opq(c):
     return {"r": "ok", "intended": intended, "got": _deep(back.get(c["param"], "<absent>"))}
 
 
+# classes with a (de)serialiser of their own: the DPoP proof (client and server add-on) — dict form and its signed-header form
+DPOP = ["idpyoidc.client.oauth2.add_on.dpop.DPoPProof", "idpyoidc.server.oauth2.add_on.dpop.DPoPProof"]
+_dpop_key = None
+
+
+def dpop_cases(rng):
+    out = []
+    for qn in DPOP:
+        for htu in ("https://op.example.org/token", "https://op.example.org/token?tenant=blue", "https://op.example.org/t#frag", "https://op.example.org/a%20b?x=1&y=2"):
+            for extra in ({}, {"ext": True}, {"x5t#S256": "abc", "vendor": {"a": [1, 2]}}):
+                out.append({"t": "dpop", "cls": qn, "htu": htu, "extra": extra, "jti": rng.choice(STRS), "htm": rng.choice(["POST", "GET"])})
+    return out
+
+
+def _impl_dpop(c):
+    global _dpop_key
+    import importlib
+    from cryptojwt.jwk.ec import new_ec_key
+    if _dpop_key is None:
+        _dpop_key = new_ec_key("P-256")
+    mod, name = c["cls"].rsplit(".", 1)
+    cls = getattr(importlib.import_module(mod), name)
+    jwk = dict(_dpop_key.serialize(private=False), **c["extra"])
+    args = {"typ": "dpop+jwt", "alg": "ES256", "jwk": jwk, "jti": c["jti"], "htm": c["htm"], "htu": c["htu"], "iat": 1700000000}
+    o = {"intended": json.loads(json.dumps(args))}
+    try:
+        m = cls()
+        for k, v in args.items():
+            m[k] = json.loads(json.dumps(v))
+        def mem(x):
+            return json.loads(json.dumps({k: x[k] for k in x.keys()}))
+        o["dict"] = mem(cls().from_dict(m.to_dict()))
+        o["json"] = mem(cls().from_json(m.to_json()))
+        m2 = cls(**json.loads(json.dumps(args)))
+        from cryptojwt.jwk.jwk import key_from_jwk_dict
+        m2.key = key_from_jwk_dict(_dpop_key.serialize(private=True))     # create_header rewrites the key's kid: a copy per proof
+        hdr = m2.create_header()
+        back = cls().verify_header(hdr)
+        o["header"] = {k: back[k] for k in ("jti", "htm", "htu", "iat")} if back is not None else None
+        o["r"] = "ok"
+    except Exception as e:
+        o["r"], o["e"] = "exc", type(e).__name__ + ":" + str(e)[:80]
+    return o
+
+
 def impl(c):
+    if c["t"] == "dpop":
+        return _impl_dpop(c)
     if c["t"] == "opq":
         return _impl_opq(c)
     if c["t"] == "qs":
@@ -234,7 +282,7 @@ def dec_val(w):
 
 
 def model_lines(c, obs):
-    if c["t"] == "opq":
+    if c["t"] in ("opq", "dpop"):
         return []
     if c["t"] == "qs":
         flat = []
@@ -250,7 +298,7 @@ def model_lines(c, obs):
 
 
 def compare(c, obs, outs):
-    if c["t"] == "opq":
+    if c["t"] in ("opq", "dpop"):
         return []
     if c["t"] == "qs":
         f = outs[0].split("\t")
@@ -303,6 +351,19 @@ def compare(c, obs, outs):
 
 def oracle(c, obs):
     """m == deser(ser(m)) up to the textual rendering allowance, stated on the real objects"""
+    if c["t"] == "dpop":
+        v = []
+        if obs["r"] != "ok":
+            return [{"cls": "dpop-proof-does-not-round-trip", "how": obs.get("e")}]
+        for fmt in ("dict", "json"):
+            if obs[fmt] != obs["intended"]:
+                diff = sorted(k for k in set(obs[fmt]) | set(obs["intended"]) if obs[fmt].get(k) != obs["intended"].get(k))
+                v.append({"cls": "class-specific-roundtrip-differs", "class": c["cls"].split(".")[1] + ".DPoPProof", "fmt": fmt, "params": diff})
+        want = {k: obs["intended"][k] for k in ("jti", "htm", "htu", "iat")}
+        if obs["header"] != want:
+            v.append({"cls": "class-specific-roundtrip-differs", "class": c["cls"].split(".")[1] + ".DPoPProof", "fmt": "signed header",
+                      "params": sorted(k for k in want if (obs["header"] or {}).get(k) != want[k])})
+        return v
     if c["t"] == "opq":
         if obs["r"] == "ok" and obs["got"] != obs["intended"]:
             return [{"cls": "nested-roundtrip-differs", "fmt": c["fmt"], "param": c["param"]}]
@@ -343,6 +404,8 @@ def known_key(c, v, known):
 
 
 def classify(c, obs):
+    if c["t"] == "dpop":
+        return f"dpop:{obs['r']}"
     if c["t"] == "opq":
         return f"opaque:{c['fmt']}:{obs['r']}"
     if c["t"] == "cell":
@@ -351,6 +414,8 @@ def classify(c, obs):
 
 
 def nontrivial(c, obs):
+    if c["t"] == "dpop":
+        return True
     if c["t"] == "opq":
         return obs["r"] == "ok"
     s = json.dumps(c.get("v", c.get("pairs", c.get("txt"))), ensure_ascii=False)
